@@ -112,9 +112,27 @@ def rules_order(run):
         st = q.enclosing_stmt(st_call[0]) if st_call else None
         good = st is not None and isinstance(st, ast.Assign) and isinstance(a0, ast.Name) and isinstance(st.targets[0], ast.Name) and a0.id == st.targets[0].id
         run.check(good, r, ci.short, 'the check sees all selected transitions', '_sort_transitions must receive the full selection', s)
-        at = guard_atoms(s)
-        run.check(all(a[0] in ('truthy',) and a[1] in ((a0.id if isinstance(a0, ast.Name) else ''), 'self._initialized') for a in at), r, ci.short,
-                  'the check runs whenever something was selected', 'the check is skipped under %s' % at, s)
+        selv = a0.id if isinstance(a0, ast.Name) else '?'
+
+        def classify(op, l, r_, e, selv=selv):
+            if op == 'truthy' and l == selv:
+                return 'SELECTED'
+            if op == 'truthy' and l == 'self._initialized':
+                return 'INIT'
+            return None
+        ba = q.BoolAbs(classify)
+        vs, sat = ba.table(guards(s))
+        # reached whenever initialised and something was selected, whatever the other atoms say
+        missing = [v for v in range(1) if not all(any(('SELECTED' in x) and all((u in x) == val for u, val in combo.items()) for x in sat)
+                                                  for combo in [{}])]
+        unknown_vars = [v for v in vs if v.startswith('?')]
+        need = []
+        import itertools
+        for vals in itertools.product([False, True], repeat=len(unknown_vars)):
+            want = frozenset(['SELECTED'] + (['INIT'] if 'INIT' in vs else []) + [u for u, b in zip(unknown_vars, vals) if b])
+            if want not in sat:
+                need.append(dict(zip(unknown_vars, vals)))
+        run.check(not need, r, ci.short, 'the check runs whenever something was selected', 'the check is skipped when %s' % need[:2], s)
     ei = run.fn('Interpreter.execute_once')
     E = ei.node
     comp = q.calls_to(run, E, {'Interpreter._compute_steps'})
